@@ -531,13 +531,6 @@ EXPORT errno_t _wcsnorm_decompose_s_chk(wchar_t *restrict dest, rsize_t dmax,
     if (lenp)
         *lenp = 0;
     CHK_DEST_NULL("wcsnorm_s")
-    if (unlikely(src == NULL)) {
-        invoke_safe_str_constraint_handler("wcsnorm_s: "
-                                           "src is null",
-                                           dest, ESNULLP);
-        *dest = 0;
-        return RCNEGATE(ESNULLP);
-    }
     if (unlikely(dmax == 0)) {
         invoke_safe_str_constraint_handler("wcsnorm_s: "
                                            "dmax is 0",
@@ -557,8 +550,14 @@ EXPORT errno_t _wcsnorm_decompose_s_chk(wchar_t *restrict dest, rsize_t dmax,
         invoke_safe_str_constraint_handler("wcsnorm_s: "
                                            "dmax exceeds max",
                                            dest, ESLEMAX);
-        *dest = 0;
         return RCNEGATE(ESLEMAX);
+    }
+    if (unlikely(src == NULL)) {
+        invoke_safe_str_constraint_handler("wcsnorm_s: "
+                                           "src is null",
+                                           dest, ESNULLP);
+        *dest = 0;
+        return RCNEGATE(ESNULLP);
     }
     if (destbos == BOS_UNKNOWN) {
         BND_CHK_PTR_BOUNDS(dest, dmax * sizeof(wchar_t));
